@@ -10,7 +10,7 @@ F start <kind> <t>                               enter the call and run to the f
 F step <t>                                       run goroutine t to its next yield point / return
 F finish <t>                                     run goroutine t's call to completion
 F fwd <t>                                        goroutine t issues ForwardDNS
-    -> pc=<pc of t> if=<inFlight> ret=<0|1> cl=<closes> ic=<0|1> bad=<badUses>
+    -> pc=<pc of t> if=<inFlight> ret=<0|1> cl=<closes> ic=<0|1> bad=<badUses> busy=<goroutines in use>
 
 U reset
 U push <ev>                     ev = short | to | io | d:<id>:bad | d:<id>:<q>:<tc>:<tag>
@@ -51,7 +51,8 @@ def fpcStr : Fwd.Pc → String
 
 def fOut (s : Fwd.St) (t : Nat) : String :=
   let pc := match s.pcs[t]? with | some p => fpcStr p | none => "none"
-  s!"pc={pc} if={s.inFlight} ret={b01 s.retired} cl={s.closes} ic={b01 s.inCache} bad={s.badUses}"
+  let busy := s.pcs.countP (fun p => p == .busy)
+  s!"pc={pc} if={s.inFlight} ret={b01 s.retired} cl={s.closes} ic={b01 s.inCache} bad={s.badUses} busy={busy}"
 
 def parseEndUse : String → Option Fwd.EndUse
   | "split" => some .split | "recheck" => some .recheck | "atomic" => some .atomic | _ => none
